@@ -1,11 +1,10 @@
 """C08 — indexing a catalog commutes with evaluating its properties; a sliced catalog is
 independent of its parent (SourceCatalog, ApertureStats)."""
 import inspect
-import warnings
 
 import numpy as np
 
-from .core import coq, Some, Raw, Nat
+from .core import coq
 
 PID = 'C08'
 FILES = ['lib/Cases.v', 'C08_Model.v', 'C08_Proofs.v', 'C08_Properties.v']
@@ -75,7 +74,8 @@ def canon(v):
         return ('seq', tuple(canon(e) for e in v))
     if type(v).__name__ == 'CutoutImage':
         return ('cutout', canon(np.asarray(v.data)), canon(v.bbox_original), canon(v.slices_original))
-    return ('obj', type(v).__name__, repr(v))
+    r = repr(v)
+    return ('obj', type(v).__name__, r if ' at 0x' not in r else '')      # never an address
 
 
 def container_kind(v):
@@ -87,16 +87,6 @@ def container_kind(v):
     if isinstance(v, tuple):
         return 3
     return 4
-
-
-def elements(v):
-    """Per-source entries of a container value (canonical forms)."""
-    from astropy.coordinates import SkyCoord
-    if isinstance(v, SkyCoord) or hasattr(v, 'positions'):
-        if getattr(v, 'isscalar', False):
-            raise TypeError('scalar')
-        return [canon(v[i]) for i in range(len(v))]
-    return [canon(v[i]) for i in range(len(v))]
 
 
 # --------------------------------------------------------------------------
@@ -1159,12 +1149,15 @@ def run(ctx):
     ctx.stat('coq', 'disagreements', len(bad))
     sig = 'SourceCatalog.__getitem__:shared-_extra_properties'
     if sig in seen_sigs:
-        # the faithful model of the unrepaired __getitem__ (list copied by reference) on that history
-        i = seen_sigs[sig]
-        if len(results[i]['viol']) == sum(1 for v in results[i]['viol'] if v[0] == sig):
-            ok = not ctx.coq_eval_cases(['C08_Model'], 'check_case_shared', [terms[i]], case_type='case',
-                                        tag='shared')
-            ctx.stat('coq', 'shared-list model agrees with the unrepaired code on the violating history', int(ok))
+        # the faithful model of the unrepaired __getitem__ (list copied by reference) on histories whose
+        # only violations are of that kind
+        pure = [i for i, r in enumerate(results) if r['viol'] and all(v[0] == sig for v in r['viol'])][:8]
+        if pure:
+            disagree = ctx.coq_eval_cases(['C08_Model'], 'check_case_shared', [terms[i] for i in pure],
+                                          case_type='case', tag='shared')
+            ctx.stat('coq', 'violating histories on which the shared-list model (unrepaired code) agrees',
+                     len(pure) - len(disagree))
+            ctx.stat('coq', 'violating histories on which the shared-list model disagrees', len(disagree))
     for i in bad[:10]:
         detail = {'case': descs[i], 'bad_observations': ctx.coq_eval_term(['C08_Model'], f'bad_obs {terms[i]}')
                   if len(bad) < 30 else None, 'cmd': 'bin/check C08 --replay <this file>'}
